@@ -88,6 +88,17 @@ fn main() {
             println!("into_data_type {:?}", a.into_data_type(&b).map(|t| t.to_string()));
             return;
         }
+        "DEBUGC11" => {
+            use qrlew::data_type::{DataType, Variant as _};
+            let d = |y, m, dd| chrono::NaiveDate::from_ymd_opt(y, m, dd).unwrap();
+            let a = DataType::date_interval(d(2020, 1, 1), d(2020, 1, 5));
+            let b = DataType::date_time_interval(d(2020, 1, 1).and_hms_opt(0, 0, 0).unwrap(), d(2020, 1, 5).and_hms_opt(0, 0, 0).unwrap());
+            println!("a={} b={} b<=a {} a<=b {}", a, b, b.is_subset_of(&a), a.is_subset_of(&b));
+            let v = qrlew::data_type::value::Value::date_time(d(2020, 1, 2).and_hms_opt(12, 0, 0).unwrap());
+            println!("member(v,b)={:?} member(v,a)={:?} premise(v,b)={:?}", oracle::member::member(&v, &b), oracle::member::member(&v, &a), oracle::member::member_premise(&v, &b));
+            println!("union {:?}", a.super_union(&b).map(|t| t.to_string()));
+            return;
+        }
         "DEBUGDET" => {
             debug_det(&p);
             return;
